@@ -18,6 +18,7 @@ pub fn dispatch(op: &str, req: &Value) -> Value {
         "parts" => parts(req),
         "schema_check" => schema_check(req),
         "custom_value" => custom_value(req),
+        "flow" => flow(req),
         "context" => context(req),
         _ => json!({"error": format!("unknown op {op}")}),
     }
@@ -327,4 +328,29 @@ fn custom_value(req: &Value) -> Value {
     let mut v = ZervVars::default();
     v.custom = serde_json::json!({"a": ["x", 7], "b": {"c": "y", "0": true}, "s": "z", "n": null});
     json!({"value": v.get_custom_value(&cps_to_string(&req["key"]))})
+}
+
+/// the real flow pipeline on a stdin RON document built from `vars` (schema: standard-base-prerelease-post-dev-context
+/// in the document; the schema in effect is whatever --schema in argv says)
+fn flow(req: &Value) -> Value {
+    use clap::Parser;
+    use zerv::cli::flow::args::FlowArgs;
+    use zerv::cli::flow::pipeline::run_flow_pipeline;
+    let schema = ZervSchema::new(
+        vec![Component::Var(Var::Major), Component::Var(Var::Minor), Component::Var(Var::Patch)],
+        vec![Component::Var(Var::Epoch), Component::Var(Var::PreRelease), Component::Var(Var::Post), Component::Var(Var::Dev)],
+        vec![Component::Var(Var::BumpedBranch), Component::Var(Var::Distance), Component::Var(Var::BumpedCommitHashShort)]).unwrap();
+    let mut vars = vars_of(&req["vars"]);
+    vars.bumped_commit_hash = Some("g1a2b3c4d5e".to_string());
+    vars.bumped_timestamp = Some(1_700_000_000);
+    vars.last_timestamp = Some(1_690_000_000);
+    vars.last_commit_hash = Some("g0f0f0f0f0f".to_string());
+    let doc = Zerv { schema, vars }.to_string();
+    let mut argv: Vec<String> = vec!["flow".into()];
+    for a in req["argv"].as_array().unwrap() { argv.push(a.as_str().unwrap().to_string()); }
+    let args = match FlowArgs::try_parse_from(argv) { Ok(a) => a, Err(e) => return json!({"ok": false, "err": format!("argv: {e}")}) };
+    match run_flow_pipeline(args, Some(&doc)) {
+        Ok(out) => json!({"ok": true, "out": string_to_cps(&out)}),
+        Err(e) => json!({"ok": false, "err": e.to_string()}),
+    }
 }
